@@ -28,6 +28,7 @@ package share
 //@ pure func nsLe(a libshare.Namespace, b libshare.Namespace) bool
 //@ extern github.com/celestiaorg/go-square/v4/share.NewNamespaceFromBytes
 //@   ensures err == nil ==> result0 == nsOfBytes(bytes)
+//@   ensures err == nil ==> result0.data == bytes && len(bytes) == 29
 //@ extern (github.com/celestiaorg/go-square/v4/share.Namespace).IsLessThan
 //@   ensures result <==> nsLt(n, n2)
 //@ extern (github.com/celestiaorg/go-square/v4/share.Namespace).IsLessOrEqualThan
